@@ -10,7 +10,7 @@ ID = "C16"
 LEVEL = "exploration"
 TECHNIQUE = "reference-model monitor: R5 iteration counts + R8 call-graph reachability on emitted code + inline activation-depth monitor at every instruction boundary, under ASan+UBSan"
 FLAVOURS = [("asan", "generated")]
-RULE = ("(a) WHILE/GOTO-free generated programs whose LOOP bodies assign their own bound (a fifth of them through library macros whose temporaries bound two loops or are assigned inside their loop); a fresh counter cK := cK + 1 in every LOOP body makes the "
+RULE = ("(a) WHILE/GOTO-free generated programs (some with STOP, also as the last statement of guard loops that end routine and loop bodies, in one-line and multi-line layouts) whose LOOP bodies assign their own bound (a fifth of them through library macros whose temporaries bound two loops or are assigned inside their loop); a fresh counter cK := cK + 1 in every LOOP body makes the "
         "number of iterations actually performed observable in the final variables, which must equal the reference (bound value at entry); "
         "the VM must reach HALT within the bound derived from the reference step count; activation depth is monitored after every instruction "
         "and must stay <= #definitions + 1; the call graph of the emitted code (routines = reachability classes, edges = EXEC) must be acyclic; "
@@ -37,6 +37,8 @@ def small_pool_program(r):
         o = programs.Opts(allow_while=False, allow_goto=False, allow_stop=False, count_loops=True, modify_bound=0.4,
                           max_defs=2, max_depth=4, p_label=0.0, init_vars=False)
         p = programs.Gen(r, o).program()
+        if r.random() < 0.5:
+            add_guard_loops(p, r)
         init = [{"k": "assign", "var": v, "val": ("const", r.randint(1, 4))} for v in P.VARS]
         p["main"] = init + p["main"]
         return p
@@ -44,10 +46,35 @@ def small_pool_program(r):
         P.VARS = saved
 
 
+def add_guard_loops(p, r):
+    """LOOPs whose body ENDS in STOP ("if g is set, give up"), as the last statement of routine bodies and of other loop
+    bodies; the guard variable is usually 0 at entry, so the loop is skipped and whatever follows its END must run"""
+    n = [0]
+
+    def guard(vars_):
+        n[0] += 1
+        g = r.choice(["g%d" % n[0], "g%d" % n[0], r.choice(vars_) if vars_ else "g0"])
+        body = [{"k": "stop"}] if r.random() < 0.5 else [{"k": "assign", "var": "h%d" % n[0], "val": ("const", 1)}, {"k": "stop"}]
+        return {"k": "loop", "var": g, "body": body}
+
+    def walk(b, vars_, depth):
+        for st in list(b):
+            if st["k"] == "loop":
+                walk(st["body"], vars_, depth + 1)
+        if r.random() < (0.35 if depth else 0.2):
+            b.append(guard(vars_))
+    for d in p["defs"]:
+        walk(d["body"], d["params"], 0)
+    walk(p["main"], ["n", "m"], 0)
+    return p
+
+
 def loop_program(r):
-    o = programs.Opts(allow_while=False, allow_goto=False, allow_stop=False, count_loops=True, modify_bound=0.6,
+    o = programs.Opts(allow_while=False, allow_goto=False, allow_stop=r.random() < 0.3, count_loops=True, modify_bound=0.6,
                       max_defs=3, max_depth=3, p_label=0.0)
     p = programs.Gen(r, o).program()
+    if r.random() < 0.4:
+        add_guard_loops(p, r)
     # give every root variable a start value so that the loops really iterate
     init = [{"k": "assign", "var": v, "val": ("const", r.randint(0, 5))} for v in programs.VARS]
     p["main"] = init + p["main"]
